@@ -20,7 +20,7 @@ message reaches sc_write(Busy) + netw_send and then the eviction attempt; (e) PA
 fail-safe expiry; PaseResponder::handle clears the in-progress marker on every failing path.
 """
 CLAUSES = ['a: reserved session slots released on drop unless completed', 'b: rendezvous guards armed without an await gap and resetting every non-Idle state', 'c: eviction skips reserved sessions and sessions with exchanges',
-           'd: busy answer when the session table is full', 'e: PASE sessions and the in-progress marker are purged',
+           'd: busy answer when the session table is full', 'e: PASE sessions and the in-progress marker are purged; the establishment slot is re-armed by its owner only',
            'f: the dropped-exchange sweep reaches every dropped exchange; an expired session allocates no exchange slot']
 NOT_DECIDED = ['quiescence: every slot free again after traffic stops', 'a new legitimate handshake succeeds as soon as one session is idle', 'table sizes from the smallest configuration upwards']
 MIN_OBLIGATIONS = {'q': 22, 'd': 22, 'r': 22}
